@@ -28,6 +28,7 @@ pub fn list() -> Vec<(&'static str, super::Scenario)> {
         ("indep_race", indep_race),
         ("indep_despawn", indep_despawn),
         ("indep_raise", indep_raise),
+        ("indep_wake", indep_wake),
         ("panic_many", panic_many),
         ("sync_wipe", sync_wipe),
     ]
@@ -659,6 +660,81 @@ fn indep(cfg: &Cfg) {
     shutdown();
 }
 
+/// C10: a task run by a run-on-wake executor awaits a future operation on object A; its first poll (no pool thread yet) runs
+/// A's queue itself and the operation suspends (A is WaitingForPoll).  The pool then comes up and object B gets a job that
+/// blocks.  The task is written so that, when woken, it first does a `sync` on B (it "notes that it had to wait") and only then
+/// polls A's future again.  When the awaited event fires, A's queue - the woken operation and the desync behind it - must be
+/// served by the free pool thread although the task's wake-up is stuck behind B.
+fn indep_wake(cfg: &Cfg) {
+    use desync::scheduler::scheduler;
+    setup(0);
+    let pool = cfg.pool();
+    let w = World::new();
+    w.prelude(cfg);
+    set_inline_wakers(true);
+    let a = mkobj(&w, cfg);
+    let b = w.raw();
+    let g = Gate::new();
+    let hold = BGate::new();
+    let mut h = w.future_desync(&a, "FD", Body { gate: Some(g.clone()), hold: Some(hold.clone()), ..Body::default() });
+    w.desync(&a, "M", Body::plain());
+    let fut = h.fut.take().unwrap();
+    let (w1, b1, token) = (w.clone(), b.clone(), h.token);
+    let on_runner = Arc::new(std::sync::atomic::AtomicBool::new(false));
+    let on_runner1 = on_runner.clone();
+    let task = spawn(move || {
+        let prev = rt::note("in:await-fd FD");
+        let r = block_on(async move {
+            let mut f = Box::pin(fut);
+            match PollOnce(&mut f).await {
+                std::task::Poll::Ready(r) => r,
+                std::task::Poll::Pending => {
+                    WaitOnce(false).await;
+                    if rt::current_thread_name().as_deref() == Some(POOL_NAME) {
+                        // the wake-up that got here first was the result's, delivered by A's own runner: the continuation now
+                        // runs (and blocks) inside A's queue by the task's own design, which is not the library's doing
+                        on_runner1.store(true, AO::SeqCst);
+                    }
+                    w1.sync(&b1, "B-note", Body::plain());
+                    f.await
+                }
+            }
+        });
+        rt::note(&prev);
+        if r != Ok(token) {
+            rt::violation("FUTURE-RESULT FD resolved to the wrong value".into());
+        }
+    });
+    // the task is inside its first poll, inside the operation (A is Running on the task's thread): bring the pool up and let
+    // it look at (and discard) A's stale schedule entry while it takes B's blocking job
+    rt::quiesce();
+    scheduler().verif_set_max_threads(pool);
+    rt::set_census_limit(POOL_NAME, pool);
+    let bgb = BGate::new();
+    w.desync(&b, "B-blk", Body::blocking(&bgb));
+    rt::quiesce();
+    hold.open();
+    rt::quiesce();
+    // the awaited event, from an environment thread
+    let g2 = g.clone();
+    let env = spawn(move || g2.open());
+    rt::quiesce();
+    rt::outcome(format!("continuation-on-runner={}", on_runner.load(AO::SeqCst)));
+    for name in ["FD", "M"] {
+        if on_runner.load(AO::SeqCst) && name == "M" {
+            continue;
+        }
+        if !w.rec.all().iter().any(|o| o.name == name && !o.ends.is_empty()) {
+            rt::violation(format!("INDEP {} on object A did not complete while object B was blocked, although a pool thread was free (pool maximum {}): A's queue waited for the task's wake-up, which was busy with B", name, pool));
+        }
+    }
+    bgb.open();
+    join(env, "env");
+    join(task, "task");
+    finish(&w, &[&a, &b], pool);
+    shutdown();
+}
+
 /// C10: the pool is saturated (maximum `pool`), more objects than that have work waiting, some of it blocking; then the
 /// maximum is raised to `to` through the public `set_max_threads`: every waiting object that fits under the new maximum
 /// must be served although the objects ahead of it stay blocked.
@@ -742,13 +818,20 @@ fn indep_despawn(cfg: &Cfg) {
         if fop == 1 {
             let (w2, f2) = (w1.clone(), f1.clone());
             w1.sync(&f1, "F1", Body::with(move || { w2.desync(&f2, "F1n", Body::plain()); }));
+        } else if fop == 2 {
+            let (w2, f2) = (w1.clone(), f1.clone());
+            let _ = w1.try_sync(&f1, "F1", Body::with(move || { w2.desync(&f2, "F1n", Body::plain()); }));
         } else {
             w1.desync(&f1, "F1", Body::plain());
         }
     });
     rt::quiesce();
     let f1_rec = w.rec.all().into_iter().find(|o| o.name == "F1");
-    if fop == 1 {
+    if fop == 2 {
+        if f1_rec.map(|o| o.ret.is_none()).unwrap_or(true) {
+            rt::violation(format!("TRY-BLOCKED try_sync on a free object did not return while another object's job was blocked and a caller was despawning surplus threads (pool maximum lowered from {} to {})", pool, lower));
+        }
+    } else if fop == 1 {
         if f1_rec.map(|o| o.ret.is_none()).unwrap_or(true) {
             rt::violation(format!("SYNC-STALL sync on a free object (nothing ahead of it) did not return while another object's job was blocked and a caller was despawning surplus threads (pool maximum lowered from {} to {})", pool, lower));
         }
@@ -807,6 +890,13 @@ fn drop_obj(cfg: &Cfg) {
             pre_threads.push(spawn(move || h.sync()));
             // (the waiter is inside its sync before anything is dropped: a .sync() that only *starts* after a drop performed by an
             // unwinding thread finds the queue marked Panicked by that thread's drain, which no listed property speaks about)
+            rt::quiesce();
+        }
+        8 => {
+            // a task that does not own the Desync awaits a future operation's result (with `inl`=1: under a run-on-wake
+            // executor, so the result's wake-up polls the task on the runner's thread, inside the operation's job)
+            let h = w.future_desync(&o, "FD", Body::gated(&g));
+            pre_threads.push(spawn(move || h.wait()));
             rt::quiesce();
         }
         4 => {
